@@ -66,14 +66,15 @@ Fixpoint inspect_loop (d : dlm) (body : list (list N)) (i : nat) (subs : list rs
       match line with
       | [] => inspect_loop d rest (S i) subs hyph counts
       | _ =>
-          let hyph' := if in_str ch_minus line then S hyph else hyph in
-          if startswith [ch_hash] line then inspect_loop d rest (S i) subs hyph' counts
+          if startswith [ch_hash] line then inspect_loop d rest (S i) subs hyph counts
           else
+            let hyph' := if in_str ch_minus line then S hyph else hyph in
             let n := List.length (split_line d (apply_subs subs line)) in
             let counts' := n :: counts in
             match rest with
             | [] => (hyph', rev counts')              (* line_no == last line of the section *)
-            | _ => if Nat.leb 20 i then (hyph', rev counts') else inspect_loop d rest (S i) subs hyph' counts'
+            | _ => if Nat.ltb 20 (List.length counts') then (hyph', rev counts')
+                   else inspect_loop d rest (S i) subs hyph' counts'
             end
       end
   end.
